@@ -268,7 +268,12 @@ def run(ctx):
                 "vectors small / large (k*2^40) / mixed / whole problem scaled by 2^990, all feasible policies of small "
                 "instances, horizons T<=8; malformed stream: every non-empty set of empty states for n<=5 (quick: n<=4), "
                 "sorted and shuffled, states with only -inf rewards, bad beta, bad lengths; a case is non-trivial when "
-                "some state has >= 2 feasible actions (operators) resp. when the instance is rejected or re-sorted (ctor)")
+                "some state has >= 2 feasible actions (operators) resp. when the instance is rejected or re-sorted (ctor); "
+                "plus, per valid instance, a random HISTORY of 7-10 calls on one fresh object (bellman_operator / compute_greedy "
+                "with and without caller-supplied Tv / sigma, T_sigma, RQ_sigma, controlled_mc, evaluate_policy, "
+                "backward_induction, form conversion; v fresh or an array returned earlier, i.e. T(T(v))): every returned array "
+                "is kept and after every later call re-checked bitwise, np.shares_memory between any two results / inputs / the "
+                "object's arrays must be False, inputs and the object's R, Q, s_indices, a_indices, a_indptr stay bitwise unchanged")
 
     # ---------------------------------------------------------------- generators
     def gen_valid():
@@ -332,6 +337,238 @@ def run(ctx):
         with warnings.catch_warnings():
             warnings.simplefilter("ignore")
             return build(inst.job())
+
+
+    # ---------------------------------------------------------------- histories on one object
+    def arrays_of(x):
+        """the ndarrays that make up a returned value / a stored attribute"""
+        if x is None:
+            return []
+        if isinstance(x, np.ndarray):
+            return [x]
+        if hasattr(x, "indptr") and hasattr(x, "data"):            # scipy sparse
+            return [x.data, x.indices, x.indptr]
+        if hasattr(x, "P"):                                        # MarkovChain
+            return arrays_of(x.P)
+        if isinstance(x, (tuple, list)):
+            return [a for e in x for a in arrays_of(e)]
+        if hasattr(x, "a_indptr") or hasattr(x, "_sa_pair"):       # DiscreteDP
+            return [a for at in ("R", "Q", "s_indices", "a_indices", "a_indptr") for a in arrays_of(getattr(x, at, None))]
+        return []
+
+    def snap(arrs):
+        return [(a.shape, a.dtype.str, a.tobytes()) for a in arrs]
+
+    def shares(x, y):
+        return x.size > 0 and y.size > 0 and np.may_share_memory(x, y) and np.shares_memory(x, y)
+
+    def run_history(inst, table, acts, base, nt):
+        """A random sequence of calls on one fresh DiscreteDP. Kept: every returned array, every input
+        array, the object's stored arrays. After every call: all earlier results are bitwise what they
+        were, no returned array shares memory with an earlier result / an input / the object's arrays,
+        inputs and the object are bitwise unchanged. Each result is also checked against the exact
+        definition when it is produced, and (bellman / greedy / T_sigma) compared with the pure model
+        *as it stands at the end of the history*."""
+        dh = construct(inst)
+        n = inst.n
+        obj_arrs = arrays_of(dh)
+        obj_snap = snap(obj_arrs)
+        ledger = []     # dicts: label, arrs, snaps, line (model request) + show (canonical string at the end)
+        inputs = []     # (label, array, snapshot)
+        calls = []      # textual record for the replay
+        exact_pool = []  # (exact vector, nesting depth, ndarray or None) usable as v
+
+        def fresh_v():
+            if inst.scale != 1:
+                v = gen_v(inst)
+                return v, 0
+            kind = rng.choice(["small", "small", "large", "mixed", "neg"])
+            v = gen_v(inst, kind)
+            return v, (0 if kind == "small" else 99)
+
+        def pick_v():
+            """a new vector, or (T(T(v))) an array returned by an earlier call of this history"""
+            cands = [e for e in exact_pool if e[1] <= 2 and e[2] is not None]
+            if cands and rng.random() < 0.4:
+                v, dep, arr = rng.choice(cands)
+                ctx.count("history:v-is-earlier-result")
+                return v, dep, arr
+            v, dep = fresh_v()
+            arr = np.array([float(x) for x in v])
+            inputs.append(("v", arr, snap([arr])))
+            return v, dep, arr
+
+        def fail(key, what):
+            ctx.spec_fail(key, what + " [history: " + " ; ".join(calls) + "]", inst.replay(history=list(calls)))
+
+        def record(label, ret, own=(), line=None, show=None, legit_self=False):
+            """book a returned value; `own` = arrays the caller supplied for output (aliasing with them is the contract)"""
+            new = arrays_of(ret)
+            if not legit_self:
+                for x in new:
+                    if any(x is o for o in own):
+                        continue
+                    for ent in ledger:
+                        for y in ent["arrs"]:
+                            if shares(x, y):
+                                fail("history_alias", "the result of %s shares memory with the kept result of %s" % (label, ent["label"]))
+                    for lab, arr, _ in inputs:
+                        if shares(x, arr):
+                            fail("history_alias_input", "the result of %s shares memory with an input array (%s)" % (label, lab))
+                    for y in obj_arrs:
+                        if shares(x, y):
+                            fail("history_alias_object", "the result of %s shares memory with an array stored in the object" % label)
+                ledger.append({"label": label, "arrs": new, "snaps": snap(new), "line": line, "show": show})
+            # everything kept so far is still what it was
+            for ent in ledger[:-1] if not legit_self else ledger:
+                if snap(ent["arrs"]) != ent["snaps"]:
+                    fail("history_result_overwritten", "the kept result of %s changed after the later call %s" % (ent["label"], label))
+                    ent["snaps"] = snap(ent["arrs"])
+            for lab, arr, sn in inputs:
+                if snap([arr]) != sn:
+                    fail("history_input_mutated", "an input array (%s) was modified by %s" % (lab, label))
+            if snap(obj_arrs) != obj_snap or [id(a) for a in arrays_of(dh)] != [id(a) for a in obj_arrs]:
+                fail("history_object_mutated", "the object's stored R/Q/s_indices/a_indices/a_indptr changed during %s" % label)
+
+        nsteps = ctx.n(7, 10)
+        for step in range(nsteps):
+            op = rng.choice(["bellman", "bellman", "bellman", "greedy", "tsigma", "rqsigma", "cmc", "evalpol", "backward", "convert"])
+            if op in ("bellman", "greedy"):
+                v, dep, vf = pick_v()
+                ev = exact_vals(inst, v)
+                want_Tv = [vmax(ev[s].values()) for s in range(n)]
+                variant = rng.choice(["none", "none", "Tv", "Tv+sigma", "sigma"]) if op == "bellman" else rng.choice(["none", "sigma"])
+                calls.append("%s(v=%s,out=%s)" % (op, rats(v), variant))
+                ctx.count("history:%s:%s" % (op, variant))
+                own = []
+                Tv = sg = None
+                if op == "bellman":
+                    kw = {}
+                    if "Tv" in variant:
+                        kw["Tv"] = np.full(n, 77.0)
+                        own.append(kw["Tv"])
+                    if "sigma" in variant:
+                        kw["sigma"] = np.full(n, -5, dtype=int)
+                        own.append(kw["sigma"])
+                    Tv = dh.bellman_operator(vf, **kw)
+                    sg = kw.get("sigma")
+                    if "Tv" in kw and Tv is not kw["Tv"]:
+                        fail("bellman_out", "bellman_operator did not return the supplied Tv array")
+                    if [fe(x) for x in Tv] != want_Tv:
+                        fail("bellman_operator", "Tv=%s but max_a r+beta*q.v = %s" % (exts(Tv), [str(x) for x in want_Tv]))
+                    ret = (Tv,) if sg is None else (Tv, sg)
+                    tvline = "C09 bellmanTv %s v=%s" % (base, rats(v))
+                    record("bellman#%d" % step, (Tv,), own=own, line=tvline, show=lambda a=Tv: "Tv=" + exts(a))
+                    if sg is not None:
+                        record("bellman-sigma#%d" % step, (sg,), own=own, line="C09 greedy %s v=%s" % (base, rats(v)),
+                               show=lambda a=sg: "sigma=" + ints(a))
+                    if all(x is not NINF for x in want_Tv):
+                        exact_pool.append((want_Tv, dep + 1, Tv))
+                else:
+                    if variant == "sigma":
+                        sg0 = np.full(n, -5, dtype=int)
+                        own.append(sg0)
+                        sg = dh.compute_greedy(vf, sigma=sg0)
+                        if sg is not sg0:
+                            fail("greedy_out", "compute_greedy did not return the supplied array")
+                    else:
+                        sg = dh.compute_greedy(vf)
+                    record("greedy#%d" % step, (sg,), own=own, line="C09 greedy %s v=%s" % (base, rats(v)),
+                           show=lambda a=sg: "sigma=" + ints(a))
+                if sg is not None:
+                    for s_ in range(n):
+                        a_ = int(sg[s_])
+                        if a_ not in ev[s_] or ev[s_][a_] != want_Tv[s_]:
+                            fail("greedy_attains", "sigma[%d]=%d is not a feasible maximiser" % (s_, a_))
+                            break
+            elif op in ("tsigma", "rqsigma", "cmc", "evalpol"):
+                sigma = [rng.choice(a) for a in acts]
+                sig = np.array(sigma, dtype=int)
+                inputs.append(("sigma", sig, snap([sig])))
+                Rw = [table[s_][sigma[s_]][0] for s_ in range(n)]
+                Qw = [list(table[s_][sigma[s_]][1]) for s_ in range(n)]
+                if op == "tsigma":
+                    v, dep, vf = pick_v()
+                    calls.append("T_sigma(%s)(v=%s)" % (ints(sigma), rats(v)))
+                    out = dh.T_sigma(sig)(vf)
+                    want = [NINF if Rw[s_] is NINF else Rw[s_] + inst.beta * sum(x * y for x, y in zip(Qw[s_], v)) for s_ in range(n)]
+                    if [fe(x) for x in out] != want:
+                        fail("T_sigma", "T_sigma(%s)(v) is not R_sigma + beta Q_sigma v" % sigma)
+                    record("T_sigma#%d" % step, out, line="C09 tsigma %s sigma=%s v=%s" % (base, ints(sigma), rats(v)),
+                           show=lambda a=out: exts(a))
+                    if all(x is not NINF for x in want):
+                        exact_pool.append((want, dep + 1, out))
+                elif op == "rqsigma":
+                    calls.append("RQ_sigma(%s)" % ints(sigma))
+                    Rs, Qs = dh.RQ_sigma(sig)
+                    if [fe(x) for x in Rs] != Rw or [[Fraction(float(x)) for x in r_] for r_ in dense(Qs)] != Qw:
+                        fail("RQ_sigma", "RQ_sigma(%s) does not select the rows of the chosen actions" % sigma)
+                    record("RQ_sigma#%d" % step, (Rs, Qs), line="C09 rqsigma %s sigma=%s" % (base, ints(sigma)),
+                           show=lambda a=Rs, b=Qs: "R=%s|Q=%s" % (exts(a), extm(dense(b))))
+                elif op == "cmc":
+                    calls.append("controlled_mc(%s)" % ints(sigma))
+                    mc = dh.controlled_mc(sig)
+                    if [[Fraction(float(x)) for x in r_] for r_ in dense(mc.P)] != Qw:
+                        fail("controlled_mc", "controlled_mc(%s).P is not Q_sigma" % sigma)
+                    record("controlled_mc#%d" % step, mc, line="C09 cmc %s sigma=%s" % (base, ints(sigma)),
+                           show=lambda a=mc: "P=" + extm(dense(a.P)))
+                else:
+                    if inst.beta == 1 or any(r_ is NINF for r_ in Rw):
+                        continue
+                    calls.append("evaluate_policy(%s)" % ints(sigma))
+                    vs_ = dh.evaluate_policy(sig)
+                    A = [[(1 if i == j else 0) - inst.beta * Qw[i][j] for j in range(n)] for i in range(n)]
+                    xs = solve_exact(A, Rw)
+                    sc = max([1] + [abs(x) for x in xs])
+                    if not np.all(np.isfinite(vs_)) or any(abs(Fraction(float(vs_[i])) - xs[i]) > Fraction(1, 10 ** 9) * sc for i in range(n)):
+                        fail("evaluate_policy", "evaluate_policy(%s) is off the exact fixed point" % sigma)
+                    record("evaluate_policy#%d" % step, vs_)
+            elif op == "backward":
+                if inst.scale != 1:
+                    continue
+                T = rng.randint(0, 3)
+                if rng.random() < 0.3:
+                    vt, vta = None, None
+                else:
+                    vt = [Fraction(rng.randint(-16, 16)) for _ in range(n)]
+                    vta = np.array([float(x) for x in vt])
+                    inputs.append(("v_term", vta, snap([vta])))
+                calls.append("backward_induction(T=%d,v_term=%s)" % (T, "None" if vt is None else rats(vt)))
+                vsb, sgb = backward_induction(dh, T, vta)
+                cur = vt if vt is not None else [Fraction(0)] * n
+                ok = [fe(x) for x in vsb[T]] == cur
+                for t in range(T, 0, -1):
+                    ev = exact_vals(inst, cur)
+                    cur = [vmax(ev[s_].values()) for s_ in range(n)]
+                    ok = ok and [fe(x) for x in vsb[t - 1]] == cur and all(
+                        int(sgb[t - 1][s_]) in ev[s_] and ev[s_][int(sgb[t - 1][s_])] == cur[s_] for s_ in range(n))
+                if not ok:
+                    fail("backward_induction", "vs/sigmas are not the exact backward recursion (T=%d)" % T)
+                record("backward_induction#%d" % step, (vsb, sgb),
+                       line="C09 backward %s T=%d vterm=%s" % (base, T, "none" if vt is None else rats(vt)),
+                       show=lambda a=vsb, b=sgb: "vs=%s|sigmas=%s" % (extm(a), intm(b)))
+            else:
+                if rng.random() < 0.5:
+                    calls.append("to_sa_pair_form()")
+                    e = dh.to_sa_pair_form(sparse=rng.random() < 0.5)
+                    same = inst.form == "sa"
+                else:
+                    calls.append("to_product_form()")
+                    e = dh.to_product_form()
+                    same = inst.form == "prod"
+                if same:
+                    if e is not dh:
+                        fail("to_form_self", "conversion to the form the instance already has did not return the instance")
+                    record("convert-self#%d" % step, None, legit_self=True)
+                else:
+                    record("convert#%d" % step, e, line="C09 %s %s" % ("tosa" if inst.form == "prod" else "toprod", base),
+                           show=lambda a=e: canon_ddp(a))
+        ctx.count("history:runs")
+        ctx.count("history:calls", len(calls))
+        # the pure model against every kept result as it stands now, at the end of the history
+        for ent in ledger:
+            if ent["line"] is not None:
+                cases.append(Case(ent["line"], ent["show"](), nontrivial=nt, tag="history"))
 
     # ---------------------------------------------------------------- valid instances
     n_inst = ctx.n(200, 5000)
@@ -632,6 +869,9 @@ def run(ctx):
                               inst.replay())
             if d.to_sa_pair_form() is not d:
                 ctx.spec_fail("to_sa_pair_form_self", "to_sa_pair_form of an SA instance is not the instance", inst.replay())
+
+        # ---- histories: many calls on ONE object, every earlier result kept and re-checked
+        run_history(inst, table, acts, base, nt)
 
     # ---------------------------------------------------------------- malformed stream
     mal = []   # (inst, description, must_reject)
